@@ -1657,6 +1657,15 @@ impl Sim {
                 bytes: bytes.clone(),
                 id,
             });
+            if ch == 0 {
+                // What travels in an update message is on the reliable channel: the server
+                // treats it as acknowledged from this tick on.
+                let etags: BTreeSet<u8> = payloads_in(&bytes).iter().map(|p| p.0).collect();
+                for e in etags {
+                    let t = self.acks.acked_tick.entry((c, e)).or_insert(0);
+                    *t = (*t).max(now);
+                }
+            }
             if ch == 1 {
                 match parse_mutate(self.cfg.track, c, self.wire.last().unwrap()) {
                     // sanity: the message tick the parser read must be the tick of this frame
